@@ -39,6 +39,8 @@ const (
 type ProfileChangeLogExtra struct {
 	UUID common.Hash
 	Key  string
+	// the profile had no such key before the change (local, used by undo only; not encoded)
+	oldAbsent bool
 }
 
 func (extra *ProfileChangeLogExtra) String() string {
@@ -589,6 +591,11 @@ func NewAssetCodeStateLog(address common.Address, processor types.ChangeLogProce
 	if err != nil && err != types.ErrAssetNotExist {
 		return nil, fmt.Errorf("can't create asset code state log: %v", err)
 	}
+	oldAbsent := false
+	if asset, err := account.GetAssetCode(code); err == nil && asset != nil {
+		_, exist := asset.Profile[key]
+		oldAbsent = !exist
+	}
 
 	return &types.ChangeLog{
 		LogType: AssetCodeStateLog,
@@ -597,8 +604,9 @@ func NewAssetCodeStateLog(address common.Address, processor types.ChangeLogProce
 		OldVal:  oldVal,
 		NewVal:  newVal,
 		Extra: &ProfileChangeLogExtra{
-			UUID: code,
-			Key:  key,
+			UUID:      code,
+			Key:       key,
+			oldAbsent: oldAbsent,
 		},
 	}, nil
 }
@@ -631,6 +639,15 @@ func undoAssetCodeState(c *types.ChangeLog, processor types.ChangeLogProcessor) 
 		return types.ErrWrongChangeLogData
 	}
 	accessor := processor.GetAccount(c.Address)
+	if extra.oldAbsent {
+		// remove the key again instead of leaving it behind as ""
+		asset, err := accessor.GetAssetCode(extra.UUID)
+		if err != nil {
+			return err
+		}
+		delete(asset.Profile, extra.Key)
+		return accessor.SetAssetCode(extra.UUID, asset)
+	}
 	return accessor.SetAssetCodeState(extra.UUID, extra.Key, oldVal)
 }
 
